@@ -186,12 +186,16 @@ fn main() {
         "C10" => {
             props_kzg::c10(&mut ctx);
             props_marlin::c10(&mut ctx);
+            props_c14::interop(&mut ctx, "C10");
         }
         "C04" => props_c04::run(&mut ctx),
         "C06" => props_c06::run(&mut ctx),
         "C07" => props_c07::run(&mut ctx),
         "C08" => props_c08::run(&mut ctx),
-        "C09" => props_c09::run(&mut ctx),
+        "C09" => {
+            props_c09::run(&mut ctx);
+            props_c14::interop(&mut ctx, "C09");
+        }
         "C11" => props_c11::run(&mut ctx),
         "C12" => props_c12::run(&mut ctx),
         "C13" => props_c13::run(&mut ctx),
